@@ -247,6 +247,7 @@ static void b_case(uint64_t idx, void *ctx)
         if (p == 0 && (set & 1)) SPIFOPT_FLAGS_SET(SPIFOPT_SETTING_PREPARSE);
         g_diag = 0;
         spifopt_parse(ac, argv);
+        if (p == 0 && (set & 1) && ac > 1 && SPIFOPT_FLAGS_IS_SET(SPIFOPT_SETTING_PREPARSE)) { FAIL("spifopt_parse", "model:preparse-flag", shape, "the pre-parse setting is still set after the pre-parse pass (%u bad options, %d allowed)", (unsigned) SPIFOPT_BADOPTS_GET(), 3); SPIFOPT_FLAGS_CLEAR(SPIFOPT_SETTING_PREPARSE); }
         if (SPIFOPT_BADOPTS_GET() < bad_before) FAIL("spifopt_parse", "model:bad-count-decreased", shape, "bad option count went from %u to %u", bad_before, (unsigned) SPIFOPT_BADOPTS_GET());
         bad_before = SPIFOPT_BADOPTS_GET();
     }
@@ -254,7 +255,10 @@ static void b_case(uint64_t idx, void *ctx)
     if (T.g0 != GUARD || T.g1 != GUARD || T.g2 != GUARD || T.g3 != GUARD || T.g4 != GUARD || T.g5 != GUARD || T.gi1 != 0x5a5a5a5a || T.gi2 != 0x5a5a5a5a) FAIL("spifopt_parse", "invariant:guard-word-overwritten", shape, "a guard word next to an option variable changed");
     /* argv: still NULL-terminated within its block and a sub-sequence of the original pointers */
     { int j = 1, i; for (i = 1; i <= ac && argv[i]; i++) { while (j < ac && orig[j] != argv[i]) j++; if (j >= ac) { FAIL("spifopt_parse", "model:argv-not-a-subsequence", shape, "argv[%d] is not one of the original arguments in order", i); break; } j++; }
-      if (i > ac) FAIL("spifopt_parse", "model:argv-not-terminated", shape, "argv lost its NULL terminator"); }
+      if (i > ac) FAIL("spifopt_parse", "model:argv-not-terminated", shape, "argv lost its NULL terminator");
+      /* with argument removal the words are moved to the front: whatever still sits behind the terminator is a stale copy of a word in front of it */
+      else if (set & 2) for (int t = i + 1; t < ac; t++) if (argv[t]) { int found = 0; for (int f = 1; f < i; f++) if (argv[f] == argv[t]) found = 1;
+          if (!found) { FAIL("spifopt_parse", "model:argv-not-compacted", shape, "argv[%d] (\"%s\") sits behind the terminator at argv[%d] and was not moved in front of it", t, argv[t], i); break; } } }
     free_targets();
     for (int i = 0; i < ac; i++) free(orig[i]);
     free(argv);
@@ -313,9 +317,31 @@ static void d_entry(int i, spifopt_t *e)
     };
     *e = t[i];
 }
-static void d_desc(uint64_t idx, void *ctx, char *b, size_t n) { (void) ctx; snprintf(b, n, "one-entry table built with %s: fields, then prog [%s] in a %s pass", DM[idx / 4], (idx / 2) % 2 ? "-o 1" : "--opt=1", idx % 2 ? "pre-parse" : "normal"); }
+static void d_desc(uint64_t idx, void *ctx, char *b, size_t n) { (void) ctx; if (idx >= 80) { snprintf(b, n, "table {BOOL('\\xe9'), INT('\\x80')}: prog [-%s]%s", (idx - 80) % 2 ? "\\x80] [7" : "\\xe9", (idx - 80) / 2 ? " with remove-args" : ""); return; } snprintf(b, n, "one-entry table built with %s: fields, then prog [%s] in a %s pass", DM[idx / 4], (idx / 2) % 2 ? "-o 1" : "--opt=1", idx % 2 ? "pre-parse" : "normal"); }
+/* short letters above 0x7f (a table is free to use any byte as a letter) */
+static void d_highbit(uint64_t k)
+{
+    static spifopt_t one[2]; static const unsigned char L[2] = { 0xE9, 0x80 };
+    const char *shape = "short letter with the high bit set"; mc_set_shape(shape);
+    spifopt_t t[2] = { SPIFOPT_BOOL((char) 0xE9, "eacute", "d", d_flags, 0x4), SPIFOPT_INT((char) 0x80, "euro", "d", d_int) };
+    one[0] = t[0]; one[1] = t[1];
+    d_flags = 0xf0; d_int = 0;
+    char sw[3] = { '-', (char) L[k % 2], 0 };
+    char *orig[3]; int ac = 0; orig[ac++] = mc_heapstr("prog"); orig[ac++] = mc_heapstr(sw); if (k % 2) orig[ac++] = mc_heapstr("7");
+    char **argv = malloc(sizeof(char *) * (size_t) (ac + 1)); memcpy(argv, orig, sizeof(char *) * (size_t) ac); argv[ac] = NULL;
+    SPIFOPT_OPTLIST_SET(one); SPIFOPT_NUMOPTS_SET(2); SPIFOPT_ALLOWBAD_SET(9); SPIFOPT_BADOPTS_SET(0); SPIFOPT_HELPHANDLER_SET(help_stub);
+    spifopt_settings.flags = (k / 2) ? SPIFOPT_SETTING_REMOVE_ARGS : 0;
+    spifopt_parse(ac, argv);
+    if (k % 2 ? d_int != 7 : d_flags != 0xf4) FAIL("spifopt_parse", "model:high-bit-letter", shape, "-\\x%02x %s: flags=0x%lx int=%d, %u bad options", L[k % 2], k % 2 ? "7" : "", d_flags, d_int, (unsigned) SPIFOPT_BADOPTS_GET());
+    if (SPIFOPT_BADOPTS_GET()) FAIL("spifopt_parse", "model:bad-option-on-wellformed-line", shape, "%u bad options for a letter that is in the table", (unsigned) SPIFOPT_BADOPTS_GET());
+    if ((k / 2) && argv[1] != NULL) FAIL("spifopt_parse", "model:argv-after-removal", shape, "the option was not removed from argv");
+    for (int i = 0; i < ac; i++) free(orig[i]);
+    free(argv);
+    mc_nontrivial();
+}
 static void d_case(uint64_t idx, void *ctx)
 {
+    if (idx >= 80) { (void) ctx; d_highbit(idx - 80); return; }
     int mi = (int) (idx / 4), shortform = (int) ((idx / 2) % 2), pp_pass = (int) (idx % 2), kind = mi / 4, variant = mi % 4; (void) ctx;
     int is_pp = variant & 1, is_long = variant >= 2;
     const char *shape = DM[mi]; mc_set_shape(shape);
@@ -357,6 +383,6 @@ int main(int argc, char **argv)
     for (g_k = 0; g_k <= K; g_k++) if (!mc_e2_level("wellformed", g_k, lines_of(g_k), a_case, a_desc, NULL)) break;
     for (g_k = 0; g_k <= N; g_k++) if (!mc_e2_level("hostile", g_k, mc_words_of_len(NTOK, g_k) * 4, b_case, b_desc, NULL)) break;
     mc_e2_level("bundles", 1, (uint64_t) NBUN * 8, c_case, c_desc, NULL);
-    mc_e2_level("constructors", 1, 20 * 4, d_case, d_desc, NULL);
+    mc_e2_level("constructors", 1, 20 * 4 + 4, d_case, d_desc, NULL);
     return mc_finish();
 }
